@@ -161,6 +161,22 @@ static void case_Fa(ByteSource& in, CaseInfo& ci) {
   Out o = call_shape(api, expect.size() + 64, snsize, shape, spec, s, (mpf_srcptr)x, &nout); mpf_clear(x);
   judge_out("%Fa", api, o, expect, snsize, spec, nout, shape);
 }
+// a standard "%c" conversion of 0 next to an MPIR conversion: the NUL is an output character like any other (C semantics), for every sink
+static void case_nul_char(ByteSource& in, CaseInfo& ci) {
+  Int V = gen_int(in, 2); Z z; mpz_from_int(z, V); std::string dg = ref::to_string(V, 10); bool after = in.flag(); std::string e = after ? std::string("a") + '\0' + "b" + dg + "c" : dg + std::string("x") + '\0' + "y"; const char* fmt = after ? "a%cb%Zdc" : "%Zdx%cy";
+  Api api = (Api)in.range(0, A_NAPI - 1); ci.label("nul_char_in_output"); ci.label(API_NAME[api]); ci.nontrivial = true; ci.d("format \"%s\" with %%c = 0, api %s ", fmt, API_NAME[api]); DESC(ci, "v=" + show(V, 30));
+  std::vector<char> buf(e.size() + 16, 0x7e); int ret = -2; std::string got; g_alloc_err.clear();
+  auto call2 = [&](auto fn) { return after ? fn(fmt, 0, z.z) : fn(fmt, z.z, 0); };
+  switch (api) {
+    case A_SPRINTF: ret = call2([&](const char* f, auto x, auto y) { return gmp_sprintf(buf.data(), f, x, y); }); break; case A_VSPRINTF: ret = call2([&](const char* f, auto x, auto y) { return v_sprintf(buf.data(), f, x, y); }); break;
+    case A_SNPRINTF: ret = call2([&](const char* f, auto x, auto y) { return gmp_snprintf(buf.data(), e.size() + 1, f, x, y); }); break; case A_VSNPRINTF: ret = call2([&](const char* f, auto x, auto y) { return v_snprintf(buf.data(), e.size() + 1, f, x, y); }); break;
+    case A_ASPRINTF: case A_VASPRINTF: { char* p = nullptr; ret = call2([&](const char* f, auto x, auto y) { return api == A_ASPRINTF ? gmp_asprintf(&p, f, x, y) : v_asprintf(&p, f, x, y); }); if (p) { auto it = g_live->find(p); size_t n = it != g_live->end() ? it->second : 0; if (n) memcpy(buf.data(), p, std::min(n, buf.size())); if (it != g_live->end()) rec_free(p, n); REQUIRE(n == e.size() + 1, "gmp_asprintf: block of %zu bytes for an output of %zu characters (one of them NUL)", n, e.size()); } break; }
+    case A_OBSTACK: case A_VOBSTACK: { struct obstack ob; obstack_init(&ob); ret = call2([&](const char* f, auto x, auto y) { return api == A_OBSTACK ? gmp_obstack_printf(&ob, f, x, y) : v_obstack(&ob, f, x, y); }); size_t n = obstack_object_size(&ob); char* b = (char*)obstack_finish(&ob); memcpy(buf.data(), b, std::min(n, buf.size())); obstack_free(&ob, nullptr); REQUIRE(n == e.size(), "gmp_obstack_printf: object grew by %zu bytes, expected %zu", n, e.size()); break; }
+    default: { char* mem = nullptr; size_t ml = 0; FILE* fp = open_memstream(&mem, &ml); ret = call2([&](const char* f, auto x, auto y) { return api == A_FPRINTF ? gmp_fprintf(fp, f, x, y) : v_fprintf(fp, f, x, y); }); fclose(fp); memcpy(buf.data(), mem, std::min(ml, buf.size())); REQUIRE(ml == e.size(), "gmp_fprintf: wrote %zu bytes, expected %zu", ml, e.size()); free(mem); break; }
+  }
+  REQUIRE(ret == (int)e.size(), "[%s] format \"%s\" with a %%c of 0: returned %d, the output has %zu characters", API_NAME[api], fmt, ret, e.size());
+  REQUIRE(memcmp(buf.data(), e.data(), e.size()) == 0, "[%s] format \"%s\" with a %%c of 0: output bytes differ from C's (the text after the NUL character is lost or misplaced)", API_NAME[api], fmt);
+}
 // "%.Fg" (empty precision = all significant digits): the fixed / scientific choice must follow C's rule for the number of significant digits the
 // variable carries. (a) a value with a decimal exponent far above what a 64..192-bit variable carries must come out in scientific form with the leading
 // digits right; (b) an integer or dyadic fraction far below the digit capacity of a variable of 1000..20000 bits must come out in full, in fixed form.
@@ -267,10 +283,10 @@ static void fixed_case(unsigned k, CaseInfo& ci) {
   if (t[k].star) { gmp_snprintf(a, sizeof a, t[k].g, t[k].star, z.z); snprintf(b, sizeof b, t[k].c, t[k].star, t[k].v); } else { gmp_snprintf(a, sizeof a, t[k].g, z.z); snprintf(b, sizeof b, t[k].c, t[k].v); }
   ci.desc = std::string("gmp_snprintf \"") + t[k].g + "\" of " + std::to_string(t[k].v); REQUIRE(!strcmp(a, b), "\"%s\" of %ld: got \"%s\", C gives \"%s\"", t[k].g, t[k].v, a, b);
 }
-static void check(ByteSource& in, CaseInfo& ci) { switch (in.pick({10, 5, 4, 4})) { case 0: case_Z(in, ci); break; case 1: case_QNM(in, ci); break; case 2: case_F(in, ci); break; default: case_scan(in, ci); break; } }
+static void check(ByteSource& in, CaseInfo& ci) { if (in.chance(8)) { case_nul_char(in, ci); return; } switch (in.pick({10, 5, 4, 4})) { case 0: case_Z(in, ci); break; case 1: case_QNM(in, ci); break; case 2: case_F(in, ci); break; default: case_scan(in, ci); break; } }
 namespace eng {
 PropDef g_prop = {"C18",
   "Cases: one call of a member of the gmp_printf family (sprintf, snprintf with size 0..len+1 into a buffer of exactly that many bytes, asprintf, fprintf, obstack_printf appended to an object being grown, and the five va_list forms) on a format made of flags subset of {-,+,space,#,0} x width {none,1,5,20,* positive,* negative} x precision {none,.0,.3,.25,.* (also negative),'.' alone} x conversion d,i,o,x,X for %Z (values 0,+-1,..,LONG_MIN/MAX, random longs, multi-limb), %Q, %N (negative size), %M (d,i,o,u,x,X), and e,f,g,E,G for %F, alone or embedded between standard conversions (%d %s %c %% %ld %5.2f %n). Oracle: libc snprintf with %l and the equal long value (byte-identical) wherever C gives the conversion a meaning; a layout model of C's padding/sign/prefix/precision rules, validated against libc in the same run, for signed o/x/X and values that do not fit a long; libc %l for %M; libc double output for %F on dyadic values whose expansion is exact at the requested precision; return value = full length, truncation = first size-1 bytes + NUL, asprintf block = length+1 (recording allocator), %n. Input: gmp_sscanf / gmp_fscanf read back what the output functions printed (%Zd %Zi %Zx %Zo %Qd %Qi %Ff %Fe %Fg %Fa, %n, %*Zd), C-style count, EOF and matching failure. Not asserted: '#' with precision 0 on zero, '0' flag with %Q. Non-trivial: every case. Distinct = hash of all decoded choices.",
-  check, setup, {"Z:compared_with_libc", "Z:big_value_model", "Z:signed_oxX_model", "Z:empty_precision", "%Q", "%N", "%M", "%F", "%Fa", "%.Fg", "F:integer_valued_many_limbs", "gmp_snprintf", "gmp_asprintf", "gmp_vsnprintf", "gmp_fprintf", "gmp_obstack_printf", "gmp_sscanf", "gmp_fscanf", "gmp_vsscanf", "gmp_vfscanf", "scan:eof", "flag0_with_minus", "flag0_with_precision"}, fixed_case, sweep_count, sweep_item,
+  check, setup, {"Z:compared_with_libc", "Z:big_value_model", "Z:signed_oxX_model", "Z:empty_precision", "%Q", "%N", "%M", "%F", "%Fa", "%.Fg", "nul_char_in_output", "F:integer_valued_many_limbs", "gmp_snprintf", "gmp_asprintf", "gmp_vsnprintf", "gmp_fprintf", "gmp_obstack_printf", "gmp_sscanf", "gmp_fscanf", "gmp_vsscanf", "gmp_vfscanf", "scan:eof", "flag0_with_minus", "flag0_with_precision"}, fixed_case, sweep_count, sweep_item,
   "the full cross product of the 32 flag subsets of {-,+,space,#,0} x width {none,1,5,20,* = 9,* = -9} x precision {none,.0,.3,.25,.* = 4,.* = -2,'.' alone} x conversion {d,i,o,x,X} x 12 long values (0,+-1,+-7,+-123,65535,LONG_MAX,LONG_MIN,1000000007,-99999) through gmp_snprintf %Z: compared with libc where C gives the conversion a meaning, with the libc-validated layout model otherwise (80,640 format/value pairs)"};
 }
